@@ -187,6 +187,11 @@ type ImageSel struct {
 	// flush that allocated nothing, header missing): used outside C04, where the
 	// open C04 findings must not be re-reported under another property
 	OnlyStrict bool `json:"only_strict,omitempty"`
+	// Once: the image is recovered once and the continuation starts on that
+	// state. Otherwise start-up recovery runs a second time first (it must
+	// change nothing) - which would also repair what the first run left
+	// half-done in the log, so half of the images go without it.
+	Once bool `json:"once,omitempty"`
 	// GhostDir: before recovery an empty directory of this name is made under
 	// data/ - what a process leaves that died right after the mkdir of an
 	// unacknowledged CREATE DATABASE
@@ -217,6 +222,7 @@ type Knobs struct {
 	BiasOffset    uint64 `json:"bias_offset,omitempty"` // allocation frontier raised after CREATE DATABASE (sparse file): page offsets cross 2^24 in short runs
 	BiasLSN       uint64 `json:"bias_lsn,omitempty"`    // C15 with ticks withheld: only the cache monitor and O-live are evaluated
 	CheckEvery    int    `json:"check_every,omitempty"` // full contents check every k statements (0/1 = every statement)
+	SparseObserve bool   `json:"sparse_observe,omitempty"` // successful INSERTs are followed by an observer query only every CheckEvery statements (very large tables)
 	TreeEvery     int    `json:"tree_every,omitempty"`  // tree walk every k statements (0 = never)
 	NoAutoRecheck bool   `json:"-"`
 }
